@@ -24,8 +24,8 @@ UNITS = [
 ]
 
 UNITS.append(dict(name='C20.alloc', props=['C20'], kind='B', route='plain', entry='harness',
-     tus=[dict(file=OT, include_as='VERIF_TU')], harness='harness/c20_alloc.c', unwind=10, timeout=300, expect_s=5,
-     bounds={'name_bytes': 7, 'note': 'strlen/memcpy of the CBMC library unwound; the functions themselves are loop-free'},
+     tus=[dict(file=OT, include_as='VERIF_TU')], harness='harness/c20_alloc.c', unwind=14, defines=['VERIF_NAME_MAX=11'], timeout=300, expect_s=10,
+     bounds={'name_bytes': 11, 'note': 'strlen/memcpy of the CBMC library unwound; the functions themselves are loop-free'},
      must_have=['new node is named like the argument'],
      functions=[dict(name='allocate_subtree_object', file=OT, status='bounded', contract='NULL or fresh node named like the argument (assumed in C20.find)'),
                 dict(name='_dbus_object_subtree_new', file=OT, status='bounded', contract='fields initialised: no parent, no children, refcount 1, not fallback, handler fields as given')],
@@ -96,6 +96,6 @@ UNITS.append(dict(name='C20.dispatch', props=['C20'], kind='B', route='stub', en
                   'registered handlers return HANDLED, NOT_YET_HANDLED or NEED_MEMORY', MEM]))
 
 _d = dict([u for u in UNITS if u['name'] == 'C20.dispatch'][0])
-_d.update(name='C20.found', defines=['VERIF_CHECK_FOUND'], must_have=['postE found_object iff'],
+_d.update(name='C20.found', defines=['VERIF_CHECK_FOUND'], must_have=['postE found_object iff'], want_trace=False, expect_s=90,
           functions=[dict(name='_dbus_object_tree_dispatch_and_unlock', file=OT, status='bounded', contract='found_object iff the path is a node of the registered tree or lies below a REGISTERED fallback handler (property C20: UnknownMethod vs UnknownObject)')] + _d['functions'][1:])
 UNITS.append(_d)
